@@ -117,6 +117,36 @@ def validated_return(P, R, r, sepch, idv, serv):
     R.floor('C04.GRD.1', 5)
 
 
+def tag_capacity(P, R, rule='C04.TAB.2'):
+    """Every client's tag can be written: the buffers callers hand to the tag writer hold the longest text its format
+    can produce (two hexadecimal words and a separator), so no client - whatever its id and serial - is queried under
+    the "???" fallback, which no reply can be matched with."""
+    from .. import bnd
+    w = None
+    wf = None
+    for f in P.unit_fns('modules/iauth_core.c'):
+        for s in f.calls('snprintf'):
+            fmt = rules.fmt_literal(s.ev, 2)
+            if fmt and '_' in fmt and all(is_field(a, n) for a, n in zip(s.ev['args'][3:5], ('client', 'serial'))):
+                w, wf = bnd.fmt_width(P, f, fmt, s.ev['args'][3:]), f
+    if w is None:
+        R.note('%s: tag writer not found; not judged' % rule)
+        return
+    n = 0
+    for f in P.fns.values():
+        if f.unit.startswith('tests/'):
+            continue
+        for s in f.calls():
+            if wf not in P.callees(s, False) or len(s.ev['args']) < 3:
+                continue
+            buf = s.ev['args'][1]
+            ext = buf.get('arr') if isinstance(buf, dict) and buf.get('k') in ('var', 'mem') else None
+            size = const_of(s.ev['args'][2])
+            n += 1
+            R.ob(rule, ext is not None and ext >= w + 1 and (size is None or size >= w + 1), s, 'the tag buffer %s (%s bytes) holds the longest tag (%d characters and the terminator)' % (sx(buf), ext, w), key='tag-capacity:%s' % f.name)
+    R.floor(rule, 2, 'callers of the tag writer')
+
+
 def slot_impls(P):
     out = {}
     for slot in ('iauth_module::x_reply', 'iauth_module::x_unlinked'):
@@ -374,6 +404,7 @@ def run(P, R, tier):
     effects_guarded(P, R, cl)
     lookup_skips(P, R, cl)
     serial_writers(P, R)
+    tag_capacity(P, R)
     # the awaiting bit names a service by its slot: slots must not move under a pending client
     from ..report import Remap
     from . import c07
